@@ -4,6 +4,7 @@ from __future__ import annotations
 
 from asyncio import (
     FIRST_COMPLETED,
+    CancelledError,
     ensure_future,
     gather,
     get_running_loop,
@@ -1338,7 +1339,9 @@ class Executor(Generic[TContext]):
                     append_awaitable(index)
 
                 index += 1
-        except Exception:
+        except (Exception, CancelledError):
+            # also when cancelled (e.g. because a sibling field failed): a custom
+            # async iterator is not closed by the cancellation of its __anext__
             if early_return is not None:  # pragma: no branch
                 with suppress_exceptions:
                     await early_return()
